@@ -128,8 +128,10 @@ def build_unit(unit):
                               functions=[dict(name=n, repo_line=l, sha256=X.sha(o)) for (n, l, t, o) in blocks])
 
 
-def build_pipe_unit(unit):
-    """C14 unit: closures k = 0.. of `fn <function>` in `source` become named functions (header replaced, body verbatim)."""
+def build_pipe_unit(unit, force_lost=None):
+    """C14 unit: closures k = 0.. of `fn <function>` in `source` become named functions (header replaced, body verbatim).
+    force_lost: {closure name: reason} - emit only the contract of these (the tool rejected their text on this tree)."""
+    force_lost = force_lost or {}
     src = X.read(unit["source"])
     src, _ = X.cut_tests(src)
     log, lost = [], []
@@ -166,6 +168,8 @@ def build_pipe_unit(unit):
         name = c["name"]
         hdr = "fn %s(ax: &mut Axecutor) -> (res: Result<HookResult, AxError>)\n    %s" % (name, c["contract"].strip("\n") + "\n")
         try:
+            if name in force_lost:
+                raise LostAnchor(force_lost[name])
             body, rem = strip_cfg_debug_blocks(body)
             body = apply_rules(name, body, c.get("rewrites", []), log)
             body = apply_rules(name, body, c.get("annotations", []), log)
